@@ -43,7 +43,9 @@ const SIG_ERRNAME: &str = "error-name-not-heck-fixpoint";
 const TYPE_NAMES: &[&str] = &["Info", "Item", "URLInfo", "IPAddr", "Point2D", "State", "Mode", "HTTPReply", "UserRecord", "Kind"];
 const METHOD_NAMES: &[&str] = &["Get", "GetURL", "Get2FA", "ListAll", "Move", "Type", "Ping", "SetValue", "DoIt", "Try", "GetInfo", "X", "Loop", "ReloadHTTPConfig"];
 const ERROR_NAMES: &[&str] = &["NotFound", "NotOK", "Failed", "IOError", "Bad2", "PermissionDenied", "E", "TooManyURLs"];
-const FIELD_NAMES: &[&str] = &["name", "value", "userId", "user_id", "type", "self", "URL", "x2", "fooBar", "match", "id", "items", "async", "try", "is_ok", "super", "box", "count", "a_b_c", "fn"];
+const FIELD_NAMES: &[&str] = &["name", "value", "userId", "user_id", "type", "self", "URL", "x2", "fooBar", "match", "id", "items", "async", "try", "is_ok", "super", "box", "count", "a_b_c", "fn",
+    // names the proxy / derive expansions are likely to use for their own locals
+    "method", "parameters", "params", "call", "reply", "result", "conn", "connection", "stream", "chain", "error", "out", "args", "this", "request", "item", "more", "oneway"];
 const VARIANT_NAMES: &[&str] = &["one", "two", "camelCase", "IPv6", "snake_case", "UPPER", "a1", "off", "on", "type", "self"];
 const LAST_SEGMENTS: &[&str] = &["Svc", "svc", "my-svc", "svc2", "a1", "Manager", "IO", "v1beta", "2fa", "x-1"];
 
